@@ -25,11 +25,13 @@ structure Call where
   recv : Nat
 deriving Repr, DecidableEq
 
-/-- `(meth, args) ↦ nested cached calls in call order` (first match; no match = no nested calls) -/
-abbrev Rules := List ((Nat × Nat) × List Call)
+/-- `(meth, args, version of the receiver's mesh) ↦ nested cached calls in call order` (first match; no match = no
+nested calls).  The version is part of the rule key only — not of the cache key: after an in-place
+modification a query may pass other argument objects (e.g. the new per-type element blocks) to its nested calls. -/
+abbrev Rules := List ((Nat × Nat × Nat) × List Call)
 
-def Rules.calls (r : Rules) (meth args : Nat) : List Call :=
-  match r.find? (fun e => e.1 == (meth, args)) with
+def Rules.calls (r : Rules) (meth args ver : Nat) : List Call :=
+  match r.find? (fun e => e.1 == (meth, args, ver)) with
   | some e => e.2
   | none => []
 
@@ -73,7 +75,7 @@ def access (rules : Rules) : Nat → World → Key → World × Nat
       ({ w with lru := assocSet k.meth l' w.lru, hits := w.hits + 1 }, s)
     | none =>
       -- the body runs: nested cached calls in order, temporaries get fresh object ids
-      let calls := rules.calls k.meth k.args
+      let calls := rules.calls k.meth k.args (w.ver k.obj)
       let nTmp := calls.foldl (fun n c => max n c.recv) 0
       let base := w.nextTmp
       let w0 := { w with nextTmp := w.nextTmp + nTmp, misses := w.misses + 1 }
